@@ -15,6 +15,10 @@ Inductive cop :=
 
 Inductive case :=
 | CProg (a : list float) (r c : Z) (ops : list cop) (trace : list float) (panicked : bool)
+(* a program that starts from, or passes through, a matrix WITHOUT elements (the empty 0 x 0 matrix, or the degenerate
+   0 x c / r x 0 shapes an inferred dimension produces on empty data): the model alone is compared -- the rows-of-rows
+   reference is about positive shapes (a list of rows cannot carry the column count of a matrix without rows) *)
+| CProgE (a : list float) (r c : Z) (ops : list cop) (trace : list float) (panicked : bool)
 | CNew (a : list float) (r c : Z) (e : outcome (list float))
 | CEye (n : nat) (e : outcome (list float))
 | CZeros (r c : nat) (e : outcome (list float))
@@ -92,6 +96,11 @@ Definition check (c : case) : bool :=
           let (tr1, p1) := trace m ops in
           let (tr2, p2) := ref_trace (rows_of_mat m) ops in
           fl_eqb (mat_out m ++ tr1) tr && Bool.eqb p1 p && fl_eqb (mat_out m ++ tr2) tr && Bool.eqb p2 p
+      end
+  | CProgE a r c ops tr p =>
+      match new a r c with
+      | None => false
+      | Some m => let (tr1, p1) := trace m ops in fl_eqb (mat_out m ++ tr1) tr && Bool.eqb p1 p
       end
   | CNew a r c e => fout_eqb (opt_out (option_map mat_out (new a r c))) e
   | CEye n e => fout_eqb (opt_out (option_map mat_out (eye FO0 n))) e
